@@ -10,6 +10,7 @@ mod c10;
 mod c12;
 mod queries;
 mod engine_run;
+mod c04;
 mod c17;
 mod tables;
 
@@ -50,6 +51,7 @@ fn main() {
             let mut r = match id.as_str() {
                 "C16" => c16::run(&params),
                 "C03" => c03::run(&params),
+                "C04" => c04::run(&params),
                 "C10" => c10::run(&params),
                 "C12" => c12::run(&params),
                 "C17" => c17::run(&params),
